@@ -55,3 +55,19 @@ pub assume_specification<F: std::str::FromStr>[ str::parse::<F> ](s: &str) -> (r
     ensures
         r matches Ok(v) ==> parse_spec::<F>(s@) == Some(v),
         r is Err ==> parse_spec::<F>(s@) is None;
+
+/// core's reflexive `impl<T> From<T> for T`
+pub assume_specification<T>[ <T as From<T>>::from ](t: T) -> (r: T)
+    ensures r == t;
+
+
+/// Cross-unit assumption: the enum parser's stand-alone entry points (`parse::<Stamp>`,
+/// `parse::<Punctuation>`) return without panicking for every input.  That is exactly what unit
+/// `enum_parser` proves (C04); here only the signature is needed.
+pub struct ParseError(pub u8);
+impl From<ParseError> for FoldError { fn from(value: ParseError) -> Self { FoldError(0) } }
+impl vstd::std_specs::convert::FromSpecImpl<ParseError> for FoldError { open spec fn obeys_from_spec() -> bool { false } open spec fn from_spec(v: ParseError) -> Self { FoldError(0) } }
+impl EnumNarseseFormat<&str> {
+    #[verifier::external_body]
+    pub fn parse<To>(&self, input: &str) -> Result<To, ParseError> { unimplemented!() }
+}
